@@ -24,8 +24,9 @@ def main():
     WT = "/tmp/seedck/wt-%s-%s" % (prop, n.replace(":", ""))
     checks = sys.argv[3:] or [prop]
     rnd = ""
-    if re.match(r"r[0-9]:", n):
-        rnd, n = n[:2], n[3:]
+    mr = re.match(r"(r[0-9]+):(.*)$", n)
+    if mr:
+        rnd, n = mr.group(1), mr.group(2)
     out = "/tmp/mut/%s/out%s/m%s" % (prop, rnd[1:] if rnd else "", n)
     patch = os.path.join(out, "patch.diff")
     meta = json.load(open(os.path.join(out, "meta.json")))
